@@ -11,9 +11,10 @@ import tempfile
 
 from harness import core, gen, histcheck, isoapi
 
-LEAN_MODULES = ['Pycdlib.Props.C01']
+LEAN_MODULES = ['Pycdlib.Props.C01', 'Pycdlib.Props.C01Tree']
 THEOREMS = ['Pycdlib.Spec.rmFile_exact', 'Pycdlib.Spec.rmFile_releases', 'Pycdlib.Spec.rmLink_local',
-            'Pycdlib.Spec.gc_referenced', 'Pycdlib.Spec.addFp_visible', 'Pycdlib.Spec.run_none_of_step_none']
+            'Pycdlib.Spec.gc_referenced', 'Pycdlib.Spec.addFp_visible', 'Pycdlib.Spec.run_none_of_step_none',
+            'Pycdlib.Spec.history_is_forest', 'Pycdlib.Spec.entry_unique']
 PARTIAL = {
     'C01_fidelity_partial': 'the refinement pycdlib-model ⊑ Spec and Reader∘Master = abs are proved for the ISO9660/Joliet edit-state '
     'model of Props/C04 only (sizes/extents), not yet at byte level; the byte-level statement is decided by running the '
@@ -31,36 +32,44 @@ LEVEL_NOTE = 'Trusted: Lean kernel, Spec as the statement of the property, reade
 TECHNIQUE = 'Lean 4 specification + independent Lean decoder, differential against pycdlib; proved spec lemmas'
 
 
+def read_files(obj, exp, which):
+    problems = []
+    for (ns, kind, path), a in sorted(exp.items()):
+        if kind != 'F' or ns == 'R':
+            continue
+        p = '/' + '/'.join(bytes.fromhex(x).decode('utf-8') for x in path.split('/') if x)
+        key = {'I': 'iso_path', 'J': 'joliet_path', 'U': 'udf_path'}[ns]
+        out = io.BytesIO()
+        try:
+            obj.get_file_from_iso_fp(out, **{key: p})
+        except Exception as e:  # noqa
+            if a['loc'] == 'b-':
+                continue      # symlink placeholder record
+            problems.append(('%sapi-read-fails' % which, '%s %s: %s' % (key, p, isoapi.exc_class(e))))
+            continue
+        data = out.getvalue()
+        h = 14695981039346656037
+        for b in data:
+            h = ((h ^ b) * 1099511628211) & 0xFFFFFFFFFFFFFFFF
+        if len(data) != a['len'] or str(h) != a['hash']:
+            problems.append(('%sapi-read-differs' % which, '%s %s: %d bytes' % (key, p, len(data))))
+    return problems
+
+
 def api_readback(ctx, c, expected):
     """Every file in the spec view must read back through the library API (own parser) with the same bytes."""
     import pycdlib
-    problems = []
+    exp = isoapi.parse_entries(expected)
+    # first from the object the edits were made on: its path lookups go through caches that every removal has to
+    # invalidate (the caches are shared between PyCdlib objects, so this has to happen before another image is opened)
+    problems = read_files(c.iso, exp, 'edited-object/') if c.iso is not None else []
     iso2 = pycdlib.PyCdlib()
     try:
         iso2.open(c.path)
     except Exception as e:  # noqa
-        return [('reopen-fails', '%s: %s' % (isoapi.exc_class(e), str(e)[:100]))]
+        return problems + [('reopen-fails', '%s: %s' % (isoapi.exc_class(e), str(e)[:100]))]
     try:
-        exp = isoapi.parse_entries(expected)
-        for (ns, kind, path), a in sorted(exp.items()):
-            if kind != 'F' or ns == 'R':
-                continue
-            p = '/' + '/'.join(bytes.fromhex(x).decode('utf-8') for x in path.split('/') if x)
-            key = {'I': 'iso_path', 'J': 'joliet_path', 'U': 'udf_path'}[ns]
-            out = io.BytesIO()
-            try:
-                iso2.get_file_from_iso_fp(out, **{key: p})
-            except Exception as e:  # noqa
-                if a['loc'] == 'b-':
-                    continue      # symlink placeholder record
-                problems.append(('api-read-fails', '%s %s: %s' % (key, p, isoapi.exc_class(e))))
-                continue
-            data = out.getvalue()
-            h = 14695981039346656037
-            for b in data:
-                h = ((h ^ b) * 1099511628211) & 0xFFFFFFFFFFFFFFFF
-            if len(data) != a['len'] or str(h) != a['hash']:
-                problems.append(('api-read-differs', '%s %s: %d bytes' % (key, p, len(data))))
+        problems += read_files(iso2, exp, '')
         # the Rock Ridge tree through the library's own lookups: every directory lists exactly its children, every entry
         # resolves to a record of the right kind (relocated directories included)
         rr_children = {}
@@ -79,6 +88,14 @@ def api_readback(ctx, c, expected):
             except Exception as e:  # noqa
                 problems.append(('api-rr-lookup-fails', 'rr_path %s: %s' % (p[:80], isoapi.exc_class(e))))
                 continue
+            if kind == 'L' and a.get('target') is not None:
+                try:
+                    got_t = rec.rock_ridge.symlink_path().hex() if rec.rock_ridge is not None and rec.is_symlink() else None
+                except Exception as e:  # noqa
+                    got_t = 'raises:' + isoapi.exc_class(e)
+                if got_t != a['target']:
+                    problems.append(('api-rr-symlink-target', 'rr_path %s: symlink_path() gives %s, the edits made %s' % (
+                        p[:60], (got_t or 'no symlink')[:60], a['target'][:60])))
             if rec.is_dir() != (kind == 'D'):
                 problems.append(('api-rr-kind', 'rr_path %s resolves to a %s, the edits made a %s' % (p[:80], 'directory' if rec.is_dir() else 'non-directory', kind)))
                 continue
